@@ -214,6 +214,48 @@ class Ctx:
                 os.remove(aux)
         return sorted(bad), err
 
+    def coq_values(self, tag, imports, exprs, shard=400, timeout=600):
+        """exprs[i] : Coq expression of type list Z; returns the list of Python int lists (None on failure)."""
+        import ast as _ast
+        out = [None] * len(exprs)
+        files = []
+        for k, s0 in enumerate(range(0, len(exprs), shard)):
+            path = os.path.join(self.cases_dir, f"values_{tag}_{k}.v")
+            with open(path, "w") as f:
+                f.write(f"From Coq Require Import String Ascii ZArith List QArith.\nImport ListNotations.\n{imports}\n")
+                f.write("Definition vals : list (list Z) := [\n " + ";\n ".join(exprs[s0:s0 + shard]) + "].\n")
+                f.write("Eval vm_compute in vals.\n")
+            files.append((s0, path))
+
+        def one(item):
+            s0, path = item
+            r = subprocess.run(["coqc", "-Q", COQ, "RV", "-w", "none", path], capture_output=True, text=True, timeout=timeout, cwd=self.cases_dir)
+            return s0, path, r
+
+        err = None
+        with concurrent.futures.ThreadPoolExecutor(max_workers=min(14, max(1, len(files)))) as ex:
+            for s0, path, r in ex.map(one, files):
+                if r.returncode != 0:
+                    err = (err or "") + r.stderr[-1500:]
+                    continue
+                m = re.search(r"=\s*(\[.*\])\s*:\s*list \(list Z\)", r.stdout, re.S)
+                if not m:
+                    err = (err or "") + "unparsable: " + r.stdout[-300:]
+                    continue
+                txt = m.group(1).replace("%Z", "").replace(";", ",")
+                vals = _ast.literal_eval(txt)
+                for i, v in enumerate(vals):
+                    out[s0 + i] = v
+        for _, path in files:
+            for ext in (".vo", ".vok", ".vos", ".glob"):
+                p2 = path[:-2] + ext
+                if os.path.exists(p2):
+                    os.remove(p2)
+            aux = os.path.join(os.path.dirname(path), "." + os.path.basename(path)[:-2] + ".aux")
+            if os.path.exists(aux):
+                os.remove(aux)
+        return out, err
+
     def coq_show(self, imports, exprs, timeout=300, extra_defs=""):
         """Evaluate expressions and return Coq's printed answers (for replay files)."""
         path = os.path.join(self.cases_dir, "show.v")
